@@ -59,7 +59,7 @@ CONFIGS = {
     "relavx2": ("", CFG_FLAG + " -Ctarget-feature=+avx2", ["--release"], {}),
     "relalloc": ("", CFG_FLAG, ["--release", "--no-default-features", "--features", "alloc"], {}),
     "relcore": ("", CFG_FLAG, ["--release", "--no-default-features"], {}),
-    "asan": ("+nightly", CFG_FLAG + " -Zsanitizer=address -Cforce-frame-pointers=yes",
+    "asan": ("+nightly", CFG_FLAG + " --cfg vh_asan -Zsanitizer=address -Cforce-frame-pointers=yes",
              ["--release", "--target", HOST], {}),
     "tsan": ("+nightly", CFG_FLAG + " -Zsanitizer=thread -Cforce-frame-pointers=yes",
              ["--release", "--target", HOST, "-Zbuild-std"], {}),
@@ -106,7 +106,7 @@ def build(config):
         env = dict(BASE_ENV)
         env["RUSTFLAGS"] = rustflags
         env.update(extra)
-        cmd = ["cargo"] + ([toolchain] if toolchain else []) + ["build", "--offline"] + cargo_args + [
+        cmd = ["cargo"] + ([toolchain] if toolchain else []) + ["build", "--offline", "--bin", "vh"] + cargo_args + [
             "--manifest-path", os.path.join(HARNESS, "Cargo.toml"), "--target-dir", tdir]
         t0 = time.time()
         p = subprocess.run(cmd, env=env, stdout=subprocess.PIPE, stderr=subprocess.STDOUT, text=True)
@@ -131,7 +131,7 @@ def miri_cmd(config, args):
     env["RUSTFLAGS"] = rustflags
     flags = "-Zmiri-disable-isolation"
     env["MIRIFLAGS"] = (flags + " " + os.environ.get("VERIF_MIRIFLAGS", "")).strip()
-    cmd = ["cargo", "+nightly", "miri", "run", "--offline", "--target", target] + cargo_args + [
+    cmd = ["cargo", "+nightly", "miri", "run", "--offline", "--bin", "vh", "--target", target] + cargo_args + [
         "--manifest-path", os.path.join(HARNESS, "Cargo.toml"), "--target-dir", tdir, "--"] + args
     return cmd, env
 
@@ -146,6 +146,78 @@ def miri_prepare(config):
         p = subprocess.run(cmd, env=env, stdout=subprocess.PIPE, stderr=subprocess.STDOUT, text=True)
         ok = p.returncode == 0 and '"t":"noop"' in p.stdout
         return ok, p.stdout[-4000:]
+    finally:
+        lk.close()
+
+
+# --------------------------------------------------------------------------
+# wasm32 + simd128 under node (optional engine: node is on this image but not
+# in the brief's tool list, so its absence only skips these stages)
+
+def find_node():
+    import glob
+    n = shutil.which("node")
+    if n:
+        return n
+    cands = sorted(glob.glob(os.path.expanduser("~/.nvm/versions/node/*/bin/node")))
+    return cands[-1] if cands else None
+
+
+def build_wasm():
+    """Build core/alloc/compiler_builtins for wasm32-unknown-unknown with
+    +simd128 from rust-src into a private sysroot, then the harness as a
+    no_std cdylib against it. Returns the path of the .wasm module."""
+    lk = _lock("wasm")
+    try:
+        ensure_lockfile()
+        env = dict(BASE_ENV)
+        sysroot_host = subprocess.run(["rustc", "+nightly", "--print", "sysroot"], env=env, capture_output=True, text=True).stdout.strip()
+        libsrc = os.path.join(sysroot_host, "lib", "rustlib", "src", "rust", "library")
+        if not os.path.isdir(os.path.join(libsrc, "core")):
+            raise BuildError("rust-src not found under %s" % libsrc)
+        crate = os.path.join(BUILD, "wasm-sysroot-crate")
+        sysroot = os.path.join(BUILD, "wasm-sysroot")
+        libdir = os.path.join(sysroot, "lib", "rustlib", "wasm32-unknown-unknown", "lib")
+        stamp = os.path.join(libdir, ".stamp")
+        want = sysroot_host + " simd128 v1"
+        if not (os.path.exists(stamp) and open(stamp).read() == want):
+            os.makedirs(os.path.join(crate, "src"), exist_ok=True)
+            with open(os.path.join(crate, "Cargo.toml"), "w") as f:
+                f.write('[package]\nname = "wasm-sysroot"\nversion = "0.0.0"\nedition = "2021"\npublish = false\n\n[lib]\npath = "src/lib.rs"\n\n'
+                        '[dependencies]\ncore = { path = "%s/core" }\nalloc = { path = "%s/alloc" }\n'
+                        'compiler_builtins = { path = "%s/compiler-builtins/compiler-builtins", features = ["compiler-builtins", "mem"] }\n\n'
+                        '[profile.release]\nopt-level = 3\npanic = "abort"\n' % (libsrc, libsrc, libsrc))
+            with open(os.path.join(crate, "src", "lib.rs"), "w") as f:
+                f.write("#![no_std]\n")
+            shutil.copy(os.path.join(libsrc, "Cargo.lock"), os.path.join(crate, "Cargo.lock"))
+            e2 = dict(env)
+            e2["RUSTC_BOOTSTRAP"] = "1"
+            e2["RUSTFLAGS"] = "-Zforce-unstable-if-unmarked -Ctarget-feature=+simd128 -Cpanic=abort"
+            tdir = os.path.join(BUILD, "wasm-sysroot-target")
+            p = subprocess.run(["cargo", "+nightly", "build", "--offline", "--release", "--target", "wasm32-unknown-unknown",
+                                "--manifest-path", os.path.join(crate, "Cargo.toml"), "--target-dir", tdir],
+                               env=e2, stdout=subprocess.PIPE, stderr=subprocess.STDOUT, text=True)
+            if p.returncode != 0:
+                raise BuildError("wasm sysroot build failed:\n%s" % p.stdout[-3000:])
+            shutil.rmtree(libdir, ignore_errors=True)
+            os.makedirs(libdir)
+            import glob
+            deps = os.path.join(tdir, "wasm32-unknown-unknown", "release", "deps")
+            for pat in ("libcore-*.rlib", "liballoc-*.rlib", "libcompiler_builtins-*.rlib"):
+                for f in glob.glob(os.path.join(deps, pat)):
+                    shutil.copy(f, libdir)
+            with open(stamp, "w") as f:
+                f.write(want)
+        e3 = dict(env)
+        e3["RUSTFLAGS"] = CFG_FLAG + " -Ctarget-feature=+simd128 -Cpanic=abort --sysroot " + sysroot
+        tdir = os.path.join(BUILD, "wasm")
+        p = subprocess.run(["cargo", "+nightly", "build", "--offline", "--release", "--lib", "--target", "wasm32-unknown-unknown",
+                            "--no-default-features", "--features", "alloc",
+                            "--manifest-path", os.path.join(HARNESS, "Cargo.toml"), "--target-dir", tdir],
+                           env=e3, stdout=subprocess.PIPE, stderr=subprocess.STDOUT, text=True)
+        if p.returncode != 0:
+            raise BuildError("wasm module build failed:\n%s" % p.stdout[-3000:])
+        return os.path.join(tdir, "wasm32-unknown-unknown", "release", "vhw.wasm")
     finally:
         lk.close()
 
